@@ -137,7 +137,7 @@ Definition summary (s : st) : list tok :=
   [tag "H"] ++ map (fun x => tbool (snd x)) (sh_done s) ++
   [tag "S"; tnat (expshut s)].
 
-Definition run_model (l : list tok) : list tok :=
+Definition batch_run_model (l : list tok) : list tok :=
   match parse_case l with
   | None => bad_case
   | Some c =>
@@ -149,7 +149,7 @@ Definition run_model (l : list tok) : list tok :=
 
 (* coverage: which features of the protocol this trace exercised *)
 Definition has_flush (r : bool) (s : st) : bool := existsb (fun x => Bool.eqb (snd x) r && negb (Nat.eqb (snd (fst x)) 0)) (fl_done s).
-Definition run_tag (l : list tok) : list tok :=
+Definition batch_run_tag (l : list tok) : list tok :=
   match parse_case l with
   | None => bad_case
   | Some c =>
